@@ -34,7 +34,8 @@ ASSUMPTIONS = [
     'reference = textbook DFT sum with origin at index n//2 on every axis, Q[0]->axis 0, shift[0]->axis 1, coordinate - shift, '
     'normalisation 1/sqrt(Na Q0 Ma Q1) (vp/refmodels/dft.py, long-double phases, no prysm code)',
     'with a shift only the modulus is compared (the statement allows a pure phase)',
-    'error scale is ||a||_1 / sqrt(Na Q0 Ma Q1), the bound on every output sample; rtol 1e-9 (float64) / 1e-3 (float32; observed float32 round-off <= 1e-6)',
+    'error scale is ||a||_1 / sqrt(Na Q0 Ma Q1), the bound on every output sample; rtol = max(1e-9 (float64) / 1e-3 (float32), 1000 eps phi) with phi '
+    'the largest kernel / chirp phase of the call (observed round-off <= 0.5 eps phi); calls whose tolerance would exceed 3e-2 are excluded and counted',
     'samples_out / shift passed as list (unhashable cache key) and numpy-integer Q are treated as out of domain',
     'which Q a non-square pupil should get in *_fixed_sampling is C03/C05 business: the physical-Q monitor is applied to '
     'square pupil + square output only; for the rest the nested engine call is checked against the Q prysm passed',
@@ -112,6 +113,27 @@ def norm_args(Q, samples_out, shift):
     if not all(q > 0 and math.isfinite(q) for q in Qp) or not all(o >= 1 for o in out) or not all(math.isfinite(s) for s in sh):
         return None
     return Qp, out, sh
+
+
+def kernel_phase(engine, ishape, Qp, out, sh):
+    """Largest phase (rad) the engine has to represent: the DFT kernel 2 pi x u / (n Q) for mdft, the Bluestein chirps
+    pi j^2 / (n Q) with j up to in + out + |shift| for czt.  Round-off of a transform is ~ eps * this (measured: <= 0.5 eps phi
+    for mdft, <= 0.15 eps phi for czt in float32 over 30 000 random cases)."""
+    phi = 0.0
+    for n, q, o, s in zip(ishape, Qp, out, (sh[1], sh[0])):
+        if engine == 'czt':
+            phi += math.pi * (n + o + abs(s)) ** 2 / (n * q)
+        else:
+            phi += 2 * math.pi * (n / 2 + 1) * (o / 2 + 1 + abs(s)) / (n * q)
+    return phi
+
+
+def rtol_for(engine, single, ishape, Qp, out, sh):
+    """Relative tolerance: the global floor (1e-9 / 1e-3), raised to 1000 eps phi where the kernel phase is large (>= 3 decades
+    above the round-off that phase implies).  None = ill-conditioned in this precision (tolerance would exceed 3e-2): skip + count."""
+    eps = float(np.finfo(np.float32 if single else np.float64).eps)
+    r = max(RTOL32 if single else RTOL64, 1000 * eps * kernel_phase(engine, ishape, Qp, out, sh))
+    return None if r > 3e-2 else r
 
 
 def err_scale(ary, Qp):
@@ -359,7 +381,11 @@ def engine_post(engine, fn, fwd):
             return
         CTX.observe(f'engine.textbook-dft/{engine}')
         single = is_single(ary.dtype) or (engine == 'mdft' and conf_bits() == 32)
-        rtol = RTOL32 if single else RTOL64
+        rtol = rtol_for(engine, single, ary.shape, Qp, out, sh)
+        if rtol is None:
+            CTX.observe(f'engine.textbook-dft/{engine}', -1)
+            CTX.skip('engine: kernel phase beyond the resolution of the working precision (ill-conditioned, tolerance would exceed 3e-2)')
+            return
         tol = rtol * scale
         desc = describe(fn, ary, Qp, out, sh)
         result = np.asarray(result)
@@ -373,7 +399,7 @@ def engine_post(engine, fn, fwd):
             return
         err = float(np.max(np.abs(np.abs(result) - np.abs(ref)))) if kind == 'modulus' else float(np.max(np.abs(result - ref)))
         detail = {'err': err, 'tol': tol, 'scale': scale, 'compared': kind}
-        if stale and mismatch(result, ref, RTOL32 * scale, modonly) is None:
+        if stale and mismatch(result, ref, (rtol_for(engine, True, ary.shape, Qp, out, sh) or 3e-2) * scale, modonly) is None:
             return      # already reported by M2 under KEY_STALE: float32-accurate result in a float64 configuration
         if engine == 'czt':
             causes = diagnose_czt(ary, Qp, out, sh, fwd, result, tol)
@@ -463,7 +489,12 @@ def fixed_post(fn, fwd):
             return
         CTX.observe('fixed-sampling.physical-Q')
         single = is_single(ary.dtype) or (method == 'mdft' and conf_bits() == 32)
-        tol = (RTOL32 if single else RTOL64) * scale
+        rtol = rtol_for(method, single, ary.shape, (Q, Q), out, sh)
+        if rtol is None:
+            CTX.observe('fixed-sampling.physical-Q', -1)
+            CTX.skip('engine: kernel phase beyond the resolution of the working precision (ill-conditioned, tolerance would exceed 3e-2)')
+            return
+        tol = rtol * scale
         ref = ref_dft(ary, (Q, Q), out, sh, fwd)
         desc = describe(fn, ary, (Q, Q), out, sh, {'method': method, 'input_dx': dxi, 'prop_dist': z, 'wavelength': wvl, 'output_dx': dxo})
         result = np.asarray(result)
